@@ -397,7 +397,7 @@ func (c12) Exec(r *kit.Run) {
 				m := models[i]
 				obs := ticks[i]
 				if m.frozen != nil {
-					if strings.Join(obs, ",") != strings.Join(*m.frozen, ",") {
+					if !kit.SameList(obs, *m.frozen) {
 						r.Fail("ran-after-close", "goal-ran-after-Close", "query %d (%s): goals run %v, but only %v had run when it was closed", i, sc.Queries[i].Text, obs, *m.frozen)
 						return false
 					}
@@ -406,13 +406,13 @@ func (c12) Exec(r *kit.Run) {
 				if m.cancelled {
 					// a cancelled query may stop anywhere; only the prefix relation is required
 					exp, ok := scriptTicks(i, len(obs))
-					if !ok || strings.Join(obs, ",") != strings.Join(exp, ",") {
+					if !ok || !kit.SameList(obs, exp) {
 						r.Fail("answer-mismatch", "side-effects-differ:cancelled", "query %d (%s): goals run %v are not a prefix of the model's %v", i, sc.Queries[i].Text, obs, exp)
 						return false
 					}
 					return true
 				}
-				if strings.Join(obs, ",") != strings.Join(m.ticks, ",") {
+				if !kit.SameList(obs, m.ticks) {
 					r.Fail("answer-mismatch", "side-effects-differ:"+m.state(), "query %d (%s): goals run so far %v, model %v", i, sc.Queries[i].Text, obs, m.ticks)
 					return false
 				}
@@ -591,7 +591,7 @@ func (c12) Exec(r *kit.Run) {
 			r.Fail("leak", "search-goroutine-alive-after-Close", "search goroutine(s) %v still alive after every Solutions was closed (leftover blocked goroutines in bubble: %v)", alive, leftover)
 		}
 		for i, m := range models {
-			if m.frozen != nil && strings.Join(ticks[i], ",") != strings.Join(*m.frozen, ",") {
+			if m.frozen != nil && !kit.SameList(ticks[i], *m.frozen) {
 				r.Fail("ran-after-close", "goal-ran-after-Close", "query %d (%s): goals run in total %v, but only %v had run when it was closed", i, sc.Queries[i].Text, ticks[i], *m.frozen)
 			}
 		}
